@@ -53,7 +53,8 @@ CONSTANTS
   MaxRun,              \* bound on on_run invocations per actor (keeps the model finite)
   NestThen,            \* BOOLEAN: hooks may finish in the same poll in which a nested operation completed
   AvoidCycles,         \* BOOLEAN: hooks never issue an ask that would close a cycle (cycle-free programs)
-  MaxProbes            \* bound on pure observations (is_alive / identity), which do not change state
+  MaxProbes,           \* bound on pure observations (is_alive / identity), which do not change state
+  ArmRun               \* BOOLEAN: on_run invocations may be scripted to return at their very first poll (like the default on_run)
 
 Actors  == {ActorSeq[i] : i \in DOMAIN ActorSeq}
 Clients == {ClientSeq[i] : i \in DOMAIN ClientSeq}
@@ -76,7 +77,8 @@ NoActor == [sp |-> FALSE, pc |-> "None", cap |-> 0, permits |-> 0, mbox |-> <<>>
             waiters |-> <<>>, granted |-> {}, closed |-> FALSE, term |-> FALSE,
             killed |-> FALSE, idle |-> TRUE, inst |-> 0, cur |-> 0, own |-> FALSE,
             marker |-> FALSE, runErr |-> FALSE, hop |-> 0, nh |-> 0, mcount |-> 0, jl |-> <<>>,
-            res |-> NoRes, id |-> 0]
+            res |-> NoRes, id |-> 0,
+            runNow |-> ""]      \* outcome with which the next on_run invocation returns at its first poll ("" = it parks)
 
 NoOpRec == [own |-> "", kind |-> "", h |-> 0, a |-> "", m |-> 0, dl |-> -1, ph |-> "none",
             res |-> "", val |-> 0, rep |-> "none", rv |-> 0, det |-> FALSE]
@@ -353,6 +355,8 @@ EnterStop(s, a, k, viaMarker) ==
   R(SetA(s, a, [pc |-> "Stop", marker |-> viaMarker]),
     << [e |-> "HEnter", a |-> a, hook |-> "stop", m |-> 0, killed |-> k, n |-> 0] >>)
 
+RECURSIVE SelectPart(_, _), RunFinish(_, _, _, _)
+
 \* one pass of  tokio::select! { biased; terminate, mailbox, on_run if idle_enabled }
 SelectPart(s, a) ==
   LET A == s.A[a] IN
@@ -368,8 +372,10 @@ SelectPart(s, a) ==
                   << [e |-> "HEnter", a |-> a, hook |-> "handler", m |-> s.O[o].m,
                       killed |-> FALSE, n |-> A.nh + 1] >>)
   ELSE IF A.idle THEN
-       R(SetA(s, a, [pc |-> "Run", inst |-> A.inst + 1]),
-         << [e |-> "RunPoll", a |-> a, inst |-> A.inst + 1] >>)
+       LET r == R(SetA(s, a, [pc |-> "Run", inst |-> A.inst + 1, runNow |-> ""]),
+                  << [e |-> "RunPoll", a |-> a, inst |-> A.inst + 1] >>)
+       IN  \* an on_run that does not await anything returns in this very poll and the loop goes round again
+           IF A.runNow # "" THEN Then(r, LAMBDA t : RunFinish(t, a, A.runNow, FALSE)) ELSE r
   ELSE R(SetA(s, a, [pc |-> "Idle"]), <<>>)
 
 HExitEv(a, hook, m, out, v) == [e |-> "HExit", a |-> a, hook |-> hook, m |-> m, out |-> out, v |-> v]
@@ -557,6 +563,9 @@ CmdEnabled(s, cmd) ==
             /\ \A o \in OpIds : s.O[o].ph \in {"wait","granted","reply"} => s.O[o].dl < 0
             /\ \A m \in 1..MaxMsg : s.T[m] # "run"          \* every spawned task has been told how to end
        [] cmd.c = "task" -> s.T[cmd.m] = "run" /\ cmd.out \in TaskOuts
+       [] cmd.c = "arm"  -> LET A == s.A[cmd.a] IN
+                            /\ ArmRun /\ A.sp /\ A.pc \in {"Init", "Start", "Handler"} /\ A.idle /\ A.runNow = "" /\ cmd.out \in RunOuts
+                            /\ (cmd.out = "true" => A.inst + 1 < MaxRun)
        [] OTHER -> FALSE
 
 DoRaw(s, cmd) ==
@@ -633,6 +642,7 @@ DoRaw(s, cmd) ==
          ELSE IF A.permits > 0
            THEN R(SetO(SetA(s, a, [permits |-> A.permits - 1, mbox |-> Append(A.mbox, o)]), o, [ph |-> "bg"]), <<>>)
            ELSE R(SetO(SetA(s, a, [waiters |-> Append(A.waiters, o)]), o, [ph |-> "wait"]), <<>>)
+    [] cmd.c = "arm" -> R(SetA(s, cmd.a, [runNow |-> cmd.out]), <<>>)       \* (scripting only: nothing happens yet)
     [] cmd.c = "task" ->
          \* the task spawned by the handler of request m ends (it runs on a runtime of its own)
          R([s EXCEPT !.T[cmd.m] = cmd.out], << [e |-> "TaskEnd", m |-> cmd.m, out |-> cmd.out] >>)
@@ -680,6 +690,7 @@ AdvanceCmds == {[c |-> "advance", d |-> d] : d \in 1..MaxTime}
 HandleCmds  == {[c |-> k, h |-> h] : k \in HandleOps \ {"erase"}, h \in HIds}
 EraseCmds   == {[c |-> "erase", h |-> h, vk |-> vk, by |-> by] : h \in HIds, vk \in EraseKinds, by \in {"val","ref"}}
 BgCmds      == {[c |-> "bg", op |-> o] : o \in OpIds}
+ArmCmds     == {[c |-> "arm", a |-> a, out |-> x] : a \in Actors, x \in RunOuts}
 TaskCmds    == {[c |-> "task", m |-> m, out |-> x] : m \in 1..MaxMsg, x \in TaskOuts}
 QuiesceCmd  == [c |-> "quiesce"]
 
